@@ -9,7 +9,7 @@
    and count = 0, and (#dispose() of the underlying) + (#threads about to call it) = is_disposed.
    Models tied to /repo by harness/props/C27.py. *)
 From RxVerif Require Import Base.Prelude Core.Disposables Core.DisposablesFacts Core.DispConc Core.DispConcFacts
-  Core.RefCountOnce Core.RefCountOnceFacts.
+  Core.RefCountOnce Core.RefCountOnceFacts Core.DispConcFacts2 Core.RefCountFacts2.
 
 (* ---- one thread: all call histories ------------------------------------------ *)
 Local Open Scope nat_scope.
@@ -183,3 +183,78 @@ Proof. vm_compute. repeat split. Qed.
 Example C27_witness_release_never_again_hyp :
   rc_release_calls [[RGet]; [RDispDep 0]; [RDispDep 0]] [0; 1] 0 = 1.
 Proof. vm_compute. reflexivity. Qed.
+
+(* ---- inert after the release / only the underlying / only after, on calls -------------- *)
+(* INERT AFTER THE RELEASE, every interleaving: (1) nothing but the underlying item is ever disposed;
+   (2) once the object is released (after any schedule s1), for a handle j handed out afterwards
+   parent.release() is never entered, under any continuation s2 and however many threads dispose it *)
+Theorem C27_inert_all_interleavings :
+  forall progs s1 s2 j,
+  (forall i, i <> underlying -> zdisp i (plain (c_log (rc_run progs s1))) = 0%Z) /\
+  (r_disposed (c_sh (rc_run progs s1)) = true ->
+   length (r_deps (c_sh (rc_run progs s1))) <= j ->
+   rc_release_calls progs (s1 ++ s2) j = 0).
+Proof. exact refcount_conc_inert. Qed.
+Print Assumptions C27_inert_all_interleavings.
+
+(* ... such a handle is a fresh Disposable(), never an InnerDisposable, and the object stays released *)
+Theorem C27_handles_after_release_inert :
+  forall progs s1 s2 j d,
+  r_disposed (c_sh (rc_run progs s1)) = true ->
+  length (r_deps (c_sh (rc_run progs s1))) <= j ->
+  nth_error (r_deps (c_sh (rc_run progs (s1 ++ s2)))) j = Some d ->
+  (exists b, d = DInert b) /\ r_disposed (c_sh (rc_run progs (s1 ++ s2))) = true.
+Proof. exact refcount_conc_handles_after_release. Qed.
+Print Assumptions C27_handles_after_release_inert.
+
+(* ONLY AFTER, ON CALLS, every interleaving, every moment: if the underlying item has been disposed then
+   (1) some thread has started a dispose() call on the primary, (2) for every InnerDisposable handed out
+   whose parent link is cleared some thread has started a dispose() call on that very handle, and
+   (3) no InnerDisposable handed out still has its parent link *)
+Theorem C27_only_after_calls_all_interleavings :
+  forall progs sched,
+  let c := rc_run progs sched in
+  (1 <= und_acc (plain (c_log c)))%Z ->
+  (exists k t, nth_error (c_ths c) k = Some t /\ In RDispose (t_hist t)) /\
+  (forall j, nth_error (r_deps (c_sh c)) j = Some (DInner false) ->
+     exists k t, nth_error (c_ths c) k = Some t /\ In (RDispDep j) (t_hist t)) /\
+  (forall j d, nth_error (r_deps (c_sh c)) j = Some d -> d <> DInner true).
+Proof. exact refcount_conc_only_after_calls. Qed.
+Print Assumptions C27_only_after_calls_all_interleavings.
+
+(* ... in terms of the program texts *)
+Theorem C27_only_after_calls_in_programs :
+  forall progs sched,
+  let c := rc_run progs sched in
+  (1 <= und_acc (plain (c_log c)))%Z ->
+  (exists p, In p progs /\ In RDispose p) /\
+  (forall j, nth_error (r_deps (c_sh c)) j = Some (DInner false) -> exists p, In p progs /\ In (RDispDep j) p).
+Proof. exact refcount_conc_only_after_calls_progs. Qed.
+Print Assumptions C27_only_after_calls_in_programs.
+
+(* RELEASE POINT, one thread: the call [o] that makes the underlying item disposed comes when dispose()
+   has been called on the primary and on EVERY dependent handed out so far (o included) -- no exception
+   for later handles, since none was requested after a release *)
+Theorem C27_release_point :
+  forall h1 o,
+  u_disposes (log r_step r_init h1) = 0 ->
+  u_disposes (log r_step r_init (h1 ++ [o])) = 1 ->
+  existsb is_rdispose (h1 ++ [o]) = true /\
+  forall k, k < gets (h1 ++ [o]) -> dispd k (h1 ++ [o]) = true.
+Proof. exact rc_release_point. Qed.
+Print Assumptions C27_release_point.
+
+(* non-vacuity: released after [0;1;1;2;2;2] (one handle handed out); thread 0 then requests a second
+   handle (inert) and thread 3 disposes it: no release() for it, nothing more is disposed *)
+Example C27_witness_inert_after_release :
+  let progs := [[RGet; RGet]; [RDispose]; [RDispDep 0]; [RDispDep 1]] in
+  let s1 := [0; 1; 1; 2; 2; 2; 2] in let s2 := [0; 3] in
+  r_disposed (c_sh (rc_run progs s1)) = true /\ length (r_deps (c_sh (rc_run progs s1))) = 1 /\
+  r_deps (c_sh (rc_run progs (s1 ++ s2))) = [DInner false; DInert true] /\
+  c_log (rc_run progs (s1 ++ s2)) = [(2, ODisp underlying)] /\ quiescent (rc_run progs (s1 ++ s2)) = true /\
+  (1 <= und_acc (plain (c_log (rc_run progs s1))))%Z.
+Proof. vm_compute. repeat split; discriminate. Qed.
+Example C27_witness_release_point :
+  let h1 := [RGet; RDispose; RGet; RDispDep 1] in
+  u_disposes (log r_step r_init h1) = 0 /\ u_disposes (log r_step r_init (h1 ++ [RDispDep 0])) = 1.
+Proof. vm_compute. split; reflexivity. Qed.
